@@ -82,6 +82,7 @@ process:
 	system := atomic.LoadInt32(&m.systemNum)
 	if system <= 0 && user > 0 {
 		// 暂停期间只剩普通消息时不再重新调度，否则处理协程会空转占满 CPU；Resume 会重新触发处理
+		verifhook.Yield("mb.proc.loadpz", m)
 		if atomic.LoadUint32(&m.paused) == 1 {
 			user = 0
 		}
